@@ -70,12 +70,6 @@ func (s *sim) push(n snode) int {
 func nilish(v sval) bool { return v.kind == kNil || v.kind == kTnil || v.kind == kFnil }
 
 func (s *sim) append(acc sval, args []sval) sval {
-	for acc.kind == kNil {
-		if len(args) == 0 {
-			return sval{kind: kTnil}
-		}
-		acc, args = args[0], args[1:]
-	}
 	root, cur := -1, -1
 	switch {
 	case acc.kind == kRef:
@@ -224,7 +218,7 @@ func (g *gen) create(k int) {
 		in := g.val(c)
 		g.out(k, sval{kind: kFwrap, inner: &in}, "fwrap "+hexMsg(r)+" "+vn(c))
 	default:
-		// an aggregate of length 2..5 made of fresh errors, built on a nil interface (adoption of the first),
+		// an aggregate of length 2..5 made of fresh errors, built on a nil interface (everything is copied),
 		// a typed nil (copy of everything) or directly on the first error
 		n := r.Range(2, 5)
 		parts := make([]int, n)
